@@ -21,6 +21,15 @@ type Obligation struct {
 	// MustFail marks reachability probes: the query must be SAT.
 	MustFail bool
 	Note     string
+	split    []*Obligation
+}
+
+// SetNote annotates an obligation (and its split parts).
+func (o *Obligation) SetNote(n string) {
+	o.Note = n
+	for _, p := range o.split {
+		p.Note = n
+	}
 }
 
 type VC struct {
@@ -67,6 +76,17 @@ func (vc *VC) assume(guard, fact T) {
 func (vc *VC) axiom(text string) { vc.assumes = append(vc.assumes, "(assert "+text+")") }
 
 func (vc *VC) oblige(kind, name string, guard, goal T, pos string) *Obligation {
+	// split top-level conjunctions: smaller queries, sharper reports
+	if parts := conjOf(goal); len(parts) > 1 && len(parts) <= 16 && kind != "vacuity" {
+		var first *Obligation
+		for i, p := range parts {
+			o := vc.oblige(kind, fmt.Sprintf("%s/%d", name, i+1), guard, p, pos)
+			if first == nil {
+				first = o
+			}
+		}
+		return &Obligation{Name: name, split: vc.obls[len(vc.obls)-len(parts):]}
+	}
 	// unique names
 	base := name
 	n := 1
@@ -225,6 +245,7 @@ func sortSym(s Sort) string {
 
 func (vc *VC) sliceSort(elem Sort) Sort {
 	name := "Slice_" + sortSym(elem)
+	sliceElems[name] = elem
 	vc.declareSort(elem)
 	vc.declare("dt:"+name, fmt.Sprintf("(declare-datatypes ((%s 0)) (((mk%s (%s.arr (Array Int %s)) (%s.len Int) (%s.nil Bool)))))", name, name, name, elem, name, name))
 	return name
@@ -338,7 +359,7 @@ func (vc *VC) zeroOfSort(s Sort, t types.Type) T {
 		} else {
 			ez = vc.zeroOfSort(sliceElems[s], nil)
 		}
-		arr := T{fmt.Sprintf("((as const (Array Int %s)) %s)", ez.sort, ez.s), ArraySort(SInt, ez.sort)}
+		arr := vc.constArray(ez)
 		if isArr {
 			return mk(s, "mk"+s, arr, IntLit(n), TFalse)
 		}
@@ -496,4 +517,19 @@ func (vc *VC) sortedNotes() []string {
 	}
 	sort.Strings(xs)
 	return xs
+}
+
+// constArray: an array holding zero everywhere. Solvers accept `as const` only for value elements; for elements
+// built from uninterpreted constants (empty string, opaque) a named array with a quantified axiom is used.
+func (vc *VC) constArray(ez T) T {
+	as := ArraySort(SInt, ez.sort)
+	if !strings.Contains(ez.s, "gs.empty") && !strings.Contains(ez.s, "opq.zero") && !strings.Contains(ez.s, "!") {
+		return T{fmt.Sprintf("((as const %s) %s)", as, ez.s), as}
+	}
+	name := "zeroarr." + sortSym(ez.sort)
+	if !vc.declSet["c:"+name] {
+		vc.constant(name, as)
+		vc.axiom(fmt.Sprintf("(forall ((i!z Int)) (! (= (select %s i!z) %s) :pattern ((select %s i!z))))", name, ez.s, name))
+	}
+	return T{name, as}
 }
